@@ -862,6 +862,17 @@ var c18ProbeOutcomes = []string{"rn", "nr", "rr", "nn", "ne", "en", "ee", "re", 
 func (w *c18World) c18StubResolver() func(ctx context.Context, d netproxy.Dialer, dns netip.AddrPort, host string, network string, race bool) (*netutils.Ip46, error, error) {
 	return func(ctx context.Context, d netproxy.Dialer, dns netip.AddrPort, host string, network string, race bool) (*netutils.Ip46, error, error) {
 		w.probeCalls = append(w.probeCalls, host)
+		if addr, perr := netip.ParseAddr(host); perr == nil {
+			// like the production resolver (common/netutils resolve): an address
+			// literal is answered locally with itself, no lookup and no error
+			ip46 := &netutils.Ip46{}
+			if addr.Is4() || addr.Is4In6() {
+				ip46.Ip4 = addr.Unmap()
+			} else {
+				ip46.Ip6 = addr
+			}
+			return ip46, nil, nil
+		}
 		truth := "ee"
 		if !strings.ContainsAny(host, ":[] ") {
 			if t, ok := w.probeTruth[c18BareName(host)]; ok {
